@@ -50,6 +50,7 @@ static void run(const Spec & sp, uint64_t seed, long n_iid, int n_grid, bool hos
   bxdecay0::decay0_generator gen;
   std::string init_error;
   try {
+    if (verif_debug_flags()) gen.set_debug(true);
     if (sp.kind == 'B') {
       gen.set_decay_category(bxdecay0::decay0_generator::DECAY_CATEGORY_BACKGROUND);
       gen.set_decay_isotope(sp.name);
